@@ -234,7 +234,7 @@ theorem pass_ode (L : Lits α) (P : Params α) (s : State α) (o : PassOracle α
         · rename_i heq
           rw [heq] at hN
           rename_i nn th tq dy fc hh2 hf rj ls oo
-          have hf := finishStep_ode L P s o nn th tq dy fc hh2 hf ls { total := cnt.total + 1, accepted := cnt.accepted, rejected := rj, ode := oo, jac := cnt.jac, lu := cnt.lu } (s.x + s.h)
+          have hf := finishStep_ode L P s o nn th tq dy fc hh2 hf ls { total := cnt.total + 1, accepted := cnt.accepted, rejected := rj, ode := oo, jac := cnt.jac, lu := cnt.lu } (if s.last then P.xend else s.x + s.h)
           unfold FinOK at hf
           dsimp only at hf
           obtain ⟨⟨j, hj, hj2⟩, _, ht, _⟩ := hf
@@ -317,7 +317,7 @@ theorem pass_land (L : Lits K) (P : Params K) (s : State K) (o : PassOracle K) (
         · exact LandOK_failure ..
         · rename_i heq
           rw [heq] at hN
-          exact LandOK_finishStep _ _ _ _ _ _ _ _ _ _ _ _ _ _ (fun hl => hinv (hN hl))
+          exact LandOK_finishStep _ _ _ _ _ _ _ _ _ _ _ _ _ _ (fun hl => by simp [hN hl])
 
 /-- **C03 (Radau).**  Whatever the numeric kernel and the callback answer over a whole run, `Success` is reported only at `xend`. -/
 theorem run_success_at_xend (L : Lits K) (P : Params K) : ∀ (os : List (PassOracle K)) (s : State K), LandInv P s →
